@@ -189,6 +189,17 @@ pub mod models {
         n
     }
 
+    /// a loop over a small fixed array of tuples is unrolled: four return paths, no loop head
+    pub fn array_loop(a: i32, b: i32) -> i32 {
+        let mut n = 0;
+        for (x, w) in [(a, 1), (b, 10)] {
+            if x > 0 {
+                n += w;
+            }
+        }
+        n
+    }
+
     /// consecutive pairs of a slice: the loop body sees one segment (start, end) per iteration
     pub fn pairs_loop(pts: &[(i32, i32)]) -> i32 {
         let mut n = 0;
